@@ -1694,3 +1694,125 @@ class ProgramOptionsPrecedence(Contract):
         info = {'unit': self.name + ' (precedence, aliases, refusals)', 'file': self.tu + ' + src/main.cpp (prologue)', 'sha': tu.sha, 'cases': 1, 'lines': [line_of(parse), line_of(parse)], 'extract_s': 0,
                 'command_line_options': len(cli), 'config_file_options': len(cfg)}
         return [ex], info
+
+
+class HDF5AppendData(Contract):
+    """HDF5File::_appendData<rank,T>(ds, data, size): `size` records are appended at the END of the dataset —
+    the dataset is extended to the old record count + size (other extents unchanged), the hyperslab selected in the file starts at
+    the OLD record count (zero in the other dimensions) and spans size x the record extents, the memory space has the same
+    extents, and what is written is the caller's buffer.  One instantiation per (rank, element type) the file uses; the HDF5
+    calls are bound to the library contracts A-H5-EXTEND / A-H5-SELECT / A-H5-WRITE (recorded as ghosts)."""
+    name = 'vfps::HDF5File::_appendData'
+    tu = 'src/IO/HDF5File.cpp'
+    params = ['ds', 'data', 'size']
+    tags = {'C10', 'C14', 'C17', 'C19'}
+    RANK = 3
+    sig_contains = 'DatasetInfo<3> &, const float *const'
+
+    def short(self):
+        return 'HDF5File::_appendData<rank3_float>'
+
+    def requires(self, cx):
+        ds = cx.arg('ds').name
+        return [('rank', And(cx.len(ds + '.dims') == self.RANK, cx.f(ds + '.rank') == self.RANK)),
+                ('no_wrap', cx.sel(ds + '.dims', I(0), '', 'u64') + cx.a('size') < 2 ** 63)]
+
+    def assigns(self, cx):
+        ds = cx.arg('ds').name
+        return [('r', ds + '.dims', I(0), I(1)), ('s', 'ghost.*')]
+
+    @property
+    def calls(self):
+        U64 = parse_type_str('unsigned long long')
+        R = self.RANK
+
+        def grab(ex, st, p, label):
+            if not isinstance(p, PtrV) or p.region is None:
+                raise ExtractionError(f'_appendData: {label} is not an array')
+            ex.safe(st, f'h5-{label}-entries', And(p.off >= 0, st.len_of(p.region) >= p.off + R), f'{label} must hold one entry per dimension')
+            a = st.array(p.region, '', U64)
+            for i_ in range(R):
+                st.scal[f'ghost.h5.{label}{i_}'] = IntV(z3.Select(a, p.off + i_), U64)
+                ex.logw(('s', f'ghost.h5.{label}{i_}'))
+
+        def extend(ex, n, st, objn, argn, this_override=None):
+            grab(ex, st, ex.ev(argn[0], st), 'extend')
+            st.scal['ghost.h5.extended'] = IntV(I(1) + (st.scal['ghost.h5.extended'].t if 'ghost.h5.extended' in st.scal else I(0)), parse_type_str('int'))
+            ex.logw(('s', 'ghost.h5.extended'))
+            return VoidV()
+
+        def hyperslab(ex, n, st, objn, argn, this_override=None):
+            grab(ex, st, ex.ev(argn[1], st), 'count')
+            grab(ex, st, ex.ev(argn[2], st), 'start')
+            so = ex.ev_obj(objn, st)
+            st.scal['ghost.h5.sel_obj'] = Opaque(so.name if isinstance(so, ObjRef) else '?')
+            ex.logw(('s', 'ghost.h5.sel_obj'))
+            st.scal['ghost.h5.selected'] = IntV(st.scal['ghost.h5.extended'].t if 'ghost.h5.extended' in st.scal else I(0), parse_type_str('int'))   # 1 iff selected after the extension
+            ex.logw(('s', 'ghost.h5.selected'))
+            return VoidV()
+
+        def space_ctor(ex, n, st, objn, argn, this_override=None):
+            real_args = [a for a in argn if a.get('kind') != 'CXXDefaultArgExpr']
+            if len(real_args) >= 2 and parse_type(real_args[0].get('type')).kind == 'int':
+                r = ex.ev(real_args[0], st)
+                grab(ex, st, ex.ev(real_args[1], st), 'mem')
+                st.scal['ghost.h5.memrank'] = IntV(r.t, parse_type_str('int'))
+                ex.logw(('s', 'ghost.h5.memrank'))
+                nm_ = this_override or 'tmp:memspace'
+                st.scal['ghost.h5.mem_obj'] = Opaque(nm_)
+                ex.logw(('s', 'ghost.h5.mem_obj'))
+                return ObjRef(nm_, 'H5::DataSpace')
+            for a in real_args:
+                try:
+                    ex.ev(a, st) if parse_type(a.get('type')).kind != 'class' else ex.ev_obj(a, st)
+                except ExtractionError:
+                    pass
+            return ObjRef(this_override or 'tmp:filespace', 'H5::DataSpace')
+
+        def write(ex, n, st, objn, argn, this_override=None):
+            p = ex.ev(argn[0], st)
+            spaces = []
+            for a in argn[2:4]:
+                try:
+                    o = ex.ev_obj(a, st)
+                    spaces.append(o.name if isinstance(o, ObjRef) else '?')
+                except ExtractionError:
+                    spaces.append('?')
+            st.scal['ghost.h5.written'] = Opaque(f'{p.region if isinstance(p, PtrV) else "?"}|{p.off if isinstance(p, PtrV) else "?"}|{",".join(spaces)}')
+            st.scal['ghost.h5.write_after_select'] = IntV(st.scal['ghost.h5.selected'].t if 'ghost.h5.selected' in st.scal else I(0), parse_type_str('int'))
+            ex.logw(('s', 'ghost.h5.written')); ex.logw(('s', 'ghost.h5.write_after_select'))
+            return VoidV()
+        opaque = lambda ex, n, st, objn, argn, this_override=None: ObjRef('tmp:h5obj', 'H5::DataSpace')
+        return {'extend': extend, 'selectHyperslab': hyperslab, 'ctor:H5::DataSpace': space_ctor, 'getSpace': opaque, 'write': write}
+
+    def ensures(self, cx):
+        ds = cx.arg('ds').name
+        g = lambda nm: cx.st.scal[nm].t if nm in cx.st.scal else z3.Int('missing:' + nm)
+        old0 = cx.old.sel(ds + '.dims', I(0), '', 'u64')
+        size = cx.a('size')
+        dim = lambda i_: cx.old.sel(ds + '.dims', I(i_), '', 'u64')
+        R = self.RANK
+        w = cx.st.scal.get('ghost.h5.written')
+        data = cx.arg('data')
+        mo, so = cx.st.scal.get('ghost.h5.mem_obj'), cx.st.scal.get('ghost.h5.sel_obj')
+        wrote_data = isinstance(w, Opaque) and isinstance(data, PtrV) and w.what.split('|')[0] == str(data.region) and w.what.split('|')[1] == str(data.off) and \
+            isinstance(mo, Opaque) and isinstance(so, Opaque) and w.what.split('|')[2] == f'{mo.what},{so.what}'     # (buffer, type, memory space, file space with the selection)
+        return [('records_counted', {'C10', 'C14', 'C19'}, And(cx.sel(ds + '.dims', I(0), '', 'u64') == old0 + size, *[cx.sel(ds + '.dims', I(i_), '', 'u64') == dim(i_) for i_ in range(1, R)])),
+                ('dataset_extended_to_new_count', {'C10', 'C17'}, And(g('ghost.h5.extended') == 1, g('ghost.h5.extend0') == old0 + size, *[g(f'ghost.h5.extend{i_}') == dim(i_) for i_ in range(1, R)])),
+                ('appended_at_the_end', {'C10', 'C14', 'C19'}, And(g('ghost.h5.selected') == 1, g('ghost.h5.start0') == old0, *[g(f'ghost.h5.start{i_}') == 0 for i_ in range(1, R)])),
+                ('whole_records', {'C10', 'C17'}, And(g('ghost.h5.count0') == size, *[g(f'ghost.h5.count{i_}') == dim(i_) for i_ in range(1, R)])),
+                ('memory_space_matches_selection', {'C10', 'C17'}, And(g('ghost.h5.memrank') == R, *[g(f'ghost.h5.mem{i_}') == g(f'ghost.h5.count{i_}') for i_ in range(R)])),
+                ('callers_buffer_written_with_these_spaces', {'C10', 'C17'}, And(z3.BoolVal(bool(wrote_data)), g('ghost.h5.write_after_select') == 1))]
+
+
+def _append_inst(rank, sig, label):
+    return type(f'HDF5AppendData_{label}', (HDF5AppendData,), {'RANK': rank, 'sig_contains': sig, '__doc__': HDF5AppendData.__doc__,
+                                                             'short': lambda self, l_=label: f'HDF5File::_appendData<{l_}>'})
+
+
+HDF5AppendData3f = HDF5AppendData
+HDF5AppendData2f = _append_inst(2, 'DatasetInfo<2> &, const float *const', 'rank2_float')
+HDF5AppendData1f = _append_inst(1, 'DatasetInfo<1> &, const float *const', 'rank1_float')
+HDF5AppendData4f = _append_inst(4, 'DatasetInfo<4> &, const float *const', 'rank4_float')
+HDF5AppendData2a = _append_inst(2, 'DatasetInfo<2> &, const std::array<float, 2> *const', 'rank2_pair')
+HDF5AppendData3p = _append_inst(3, 'DatasetInfo<3> &, const vfps::PhaseSpace::Position *const', 'rank3_position')
